@@ -92,6 +92,19 @@ def opC15 (args : List W) : String :=
     | _, _, _, _, _, _ => "bad-decode"
   | _ => "bad-arity"
 
+/-- `c01.hash x<s> i j`: `FastHash s` and `FastHashBetween s i j` (checked indexing). -/
+def opC01Hash (args : List W) : String :=
+  match args with
+  | [s, i, j] =>
+    match s.bytes?, i.nat?, j.nat? with
+    | some s, some i, some j =>
+      let hb := match fastHashBetween? s i j with
+        | some v => toString v.toNat
+        | none => "PANIC"
+      s!"{(fastHash s).toNat}:{hb} -"
+    | _, _, _ => "bad-decode"
+  | _ => "bad-arity"
+
 end UF.Ops.B
 
 namespace UF.Ops
@@ -99,6 +112,7 @@ namespace UF.Ops
 def dispatchB (op : String) (args : List W) : Option String :=
   match op with
   | "c01.matchall" => some (B.opC01 args)
+  | "c01.hash" => some (B.opC01Hash args)
   | "c02.dns" => some (B.opC02 args)
   | "c15.cosm" => some (B.opC15 args)
   | _ => none
